@@ -243,7 +243,12 @@ class Validator:
         # add in details of the error line, when Mapfile was parsed to
         # include position details
 
-        if "__position__" in d:
+        if path and isinstance(d.get(key), dict) and "__position__" in d[key]:
+            # the error is on a nested (singleton) object e.g. WEB - use its own position
+            pd = d[key]["__position__"]
+            error_dict["line"] = pd.get("line")
+            error_dict["column"] = pd.get("column")
+        elif "__position__" in d:
             if not path or key not in d["__position__"]:
                 # position for the root object is stored in the root of the dict
                 pd = d["__position__"]
